@@ -435,6 +435,19 @@ class Cmp:
                     self.bad("make-seq-num-getter", name=sq["qname"])
                 if eg is None or eg["scoped_name"] != sq["element"]:
                     self.bad("make-seq-element-getter", name=sq["qname"])
+        for td in m.get("typedefs", []):
+            t = db.type_by_scoped(td["qname"])
+            self.fact()
+            if t is None:
+                self.bad("typedef-missing:template-instantiation", name=td["qname"])
+                continue
+            self.res.features.add("typedef:template-instantiation")
+            self.fact(2)
+            if not t["is_typedef"]:
+                self.bad("kind:typedef", name=td["qname"])
+            elif db.tname(t["wrapped_type"]) != td["target"]:
+                self.bad("typedef-target:template-instantiation", name=td["qname"], got=db.tname(t["wrapped_type"]),
+                         expected=td["target"])
         groups = {}
         for f in m["functions"]:
             groups.setdefault(f["qname"], []).append(f)
